@@ -17,7 +17,7 @@
    recorded findings, see C07/Refuted.v).  The pointwise-2-norm group functionals and the KL family are
    modelled and tied by the correspondence only.                                                        *)
 From Coq Require Import Reals Lra List Bool.
-From Verif Require Import Base.Num Base.Vec Base.VecR C07.Model C07.Convex C07.Leaves C07.LeafThms C07.Rules C07.L2 C07.Compose C07.Sorting C07.Proofs.
+From Verif Require Import Base.Num Base.Vec Base.VecR C07.Model C07.Convex C07.Leaves C07.LeafThms C07.Rules C07.L2 C07.Compose C07.Sorting C07.Proofs C07.Refuted.
 Import ListNotations.
 Local Open Scope R_scope.
 
@@ -232,6 +232,32 @@ Theorem linfty_prox : forall n (sigma : R) (x : list R), 0 < sigma -> length x =
             is_proxs n (leaf_val FLInf (repeat 1 n)) (repeat (/ sigma) n) x p.
 Proof. exact linf_leaf_prox. Qed.
 Print Assumptions linfty_prox.
+
+(* The FULL statement -- the tree theorem for every leaf on every positively weighted space, i.e.
+       forall e, (weights positive, scalars admissible) -> fprox e (SScal sigma) x minimises ...
+   without the "uniformly weighted / unweighted" side conditions of wf for IndicatorSimplex, LpNorm(inf) and
+   IndicatorLpUnitBall(1) -- is FALSE of the faithful model, hence of the code (recorded findings
+   indicator-simplex-nonuniform-weights, linfty-weighted-space, indicator-l1-ball-weighted-space).
+   prox_tree_minimises above is the _partial statement with the exact precondition. *)
+Theorem linfty_prox_weighted_space_refuted :
+  exists (w x p z : list R) (sigma : R), allpos w /\ 0 < sigma /\ length x = length w /\ length z = length w /\
+    leaf_prox FLInf w (SScal sigma) x = Ok p /\
+    ~ ele (prox_obj (leaf_val FLInf w) (metric w (repeat sigma (length w))) x p)
+          (prox_obj (leaf_val FLInf w) (metric w (repeat sigma (length w))) x z).
+Proof. exact linfty_weighted_refuted. Qed.
+Theorem indicator_l1_ball_weighted_space_refuted :
+  exists (w x p z : list R) (sigma : R), allpos w /\ 0 < sigma /\ length x = length w /\ length z = length w /\
+    leaf_prox FBall1 w (SScal sigma) x = Ok p /\
+    ~ ele (prox_obj (leaf_val FBall1 w) (metric w (repeat sigma (length w))) x p)
+          (prox_obj (leaf_val FBall1 w) (metric w (repeat sigma (length w))) x z).
+Proof. exact l1_ball_weighted_refuted. Qed.
+Theorem indicator_simplex_nonuniform_weights_refuted :
+  exists (w x p z : list R) (sigma d : R), allpos w /\ 0 < sigma /\ length x = length w /\ length z = length w /\
+    leaf_prox (FSimplex d) w (SScal sigma) x = Ok p /\
+    ~ ele (prox_obj (leaf_val (FSimplex d) w) (metric w (repeat sigma (length w))) x p)
+          (prox_obj (leaf_val (FSimplex d) w) (metric w (repeat sigma (length w))) x z).
+Proof. exact simplex_nonuniform_weights_refuted. Qed.
+Print Assumptions indicator_simplex_nonuniform_weights_refuted.
 
 (* non-vacuity: a weighted, translated, scaled, perturbed separable tree is well-formed *)
 Example wf_example :
